@@ -135,12 +135,21 @@ def read_view(obj, v):
 SCALE_FREE = {"insert", "remove", "remove_multi", "refine", "refine_helper", "reverse", "transpose", "flip", "read", "sample_size", "sample_size_dir"}
 
 
-def replay_history(sh0, hist, via, conj=None, alt_repr=False):
+def replay_history(sh0, hist, via, conj=None, alt_repr=False, kv_scale=None):
     """conj = s: the history is replayed on the object scaled by s (a power of two, exact in binary floating point) and the result is
     scaled back by 1/s - the operations of SCALE_FREE commute with uniform scaling, so the outcome must be the same definition.
     Shows whether an operation treats very small / very large coordinates differently."""
     from geomdl import operations
-    obj = build(sh0, alt_repr=alt_repr)
+    if kv_scale is not None:
+        # the same shape on the knot range [0, 1/kv_scale] (kept as it is), every parameter of the history mapped accordingly
+        if any(st["a"] not in ("insert", "remove", "remove_multi", "refine", "read") for st in hist):
+            raise ValueError("history not replayable on a scaled knot range")
+        sh0 = dict(sh0, kv=[[[k[0], k[1] * kv_scale] for k in U] for U in sh0["kv"]])
+        hist = [dict(st, **({"prm": [[] if q == [] else [q[0], q[1] * kv_scale] for q in st["prm"]]} if "prm" in st else {}),
+                     **({"u": [st["u"][0], st["u"][1] * kv_scale]} if "u" in st else {})) for st in hist]
+        obj = build(sh0, normalize_kv=False)
+    else:
+        obj = build(sh0, alt_repr=alt_repr)
     if conj is not None:
         if any(st["a"] not in SCALE_FREE for st in hist):
             raise ValueError("history carries coordinates: not replayable under scaling")
